@@ -4,9 +4,9 @@ Session.setup."""
 import config_props
 
 PROP = "C18"
-LEAN_MODULES = ["PamsProps.C18"]
-NAMESPACES = ["Pams.C18"]
-DRIVERS = ["Config"]
+LEAN_MODULES = ["PamsProps.C18", "PamsProps.SrcSession"]
+NAMESPACES = ["Pams.C18", "Pams.C18"]
+DRIVERS = ["Config", "PyRun"]
 TRUSTED = [
     "keys, names and values are opaque codes; Python dict insertion order and str(int) injectivity (entity names) are modelled, not verified",
     "expon support theorem is over the reals (Mathlib Real.log); the uniform theorem over ordered fields, its Float instance compared bit-for-bit",
@@ -16,7 +16,10 @@ ASSUMPTIONS = ["configuration values are JSON values"]
 
 
 def run(ctx, model_available=True):
-    return config_props.run_C18(ctx, model_available=model_available)
+    res = config_props.run_C18(ctx, model_available=model_available)
+    # (T2) the translated source of Session.setup under the mini-Python semantics, against CPython
+    import py_checks
+    return py_checks.merge(res, ctx, ["session"], n_each=150, model_available=model_available)
 
 
 def search(ctx, res):
